@@ -75,6 +75,27 @@ func rejectedEncode(t *rapid.T) string {
 	return fmt.Sprintf("rejected#%d", k)
 }
 
+// rejected decodes: a damaged copy of the encoding (cut short at a drawn position) goes through the same decode entry
+// points first. Decoders share pooled readers: whatever that decode reports, it must not leak into the decode of the
+// intact bytes that follows.
+func rejectedDecode(t *rapid.T, data []byte, envelope bool) string {
+	if len(data) == 0 {
+		return ""
+	}
+	cut := rapid.IntRange(0, len(data)-1).Draw(t, "cutAt")
+	damaged := append([]byte(nil), data[:cut]...)
+	if envelope {
+		_, _ = safe(func() error {
+			_, _, _, _, _, _, err := serialize.DecodeEnvelopWithRemoting(codec, damaged)
+			return err
+		})
+	}
+	r := messages.NewReaderFromPool(damaged)
+	_, _ = safe(func() error { _, err := r.ReadMessage(codec); return err })
+	messages.ReleaseReaderToPool(r)
+	return fmt.Sprintf("damaged-decode(cut at %d of %d) ", cut, len(data))
+}
+
 type failingCodec struct{}
 
 func (failingCodec) Encode(m vivid.Message) ([]byte, error) { return nil, fmt.Errorf("refused") }
@@ -208,6 +229,11 @@ func TestC12Messages(t *testing.T) {
 		}
 		data := append([]byte(nil), w.Bytes()...)
 		r := messages.NewReader(data)
+		if rapid.IntRange(0, 3).Draw(rt, "damagedFirst") == 0 {
+			pre += rejectedDecode(rt, data, false)
+			r = messages.NewReaderFromPool(data)
+			defer messages.ReleaseReaderToPool(r)
+		}
 		var got any
 		err, pv = safe(func() (e error) { got, e = r.ReadMessage(codec); return })
 		if pv != nil {
@@ -300,6 +326,9 @@ func TestC12Envelopes(t *testing.T) {
 		var gs bool
 		var sa, sp, ra, rp string
 		var got any
+		if rapid.IntRange(0, 2).Draw(rt, "damagedFirst") == 0 {
+			pre += rejectedDecode(rt, data, true)
+		}
 		err, pv = safe(func() (e2 error) {
 			gs, sa, sp, ra, rp, got, e2 = serialize.DecodeEnvelopWithRemoting(codec, data)
 			return
